@@ -457,7 +457,17 @@ def match_known(entry, v):
 def replay(ctx, case):
     inp = case.get("input", case)
     if "instrument" not in inp:
-        print("tie replay (no failing input was found); broken:", [b.get("stage") for b in case.get("broken", [])])
+        stages = [b.get("stage") for b in case.get("broken", [])]
+        print("tie replay (no failing input was found); broken:", stages)
+        if any(st in ("build-proofs", "audit", "audit-grep", "regenerate") for st in stages):
+            # the proofs no longer hold for the constants in the source: regenerate and rebuild, as the check does
+            import extract
+            extract.regenerate()
+            ok, log = lib.lake_build(LEAN_TARGETS)
+            print("lake build %s: %s" % (" ".join(LEAN_TARGETS), "ok" if ok else "FAILED"))
+            if not ok:
+                print("\n".join(l for l in log.split("\n") if "error" in l)[:600])
+                return 1
         for d in case.get("first_disagreements", [])[:3]:
             c = d.get("case", {})
             if "instrument" in c:
